@@ -2045,6 +2045,8 @@ static int64_t eval3(Node *node, char ***label) {
       error_tok(node->tok, "invalid initializer");
     return eval2(node->lhs, label);
   case ND_LABEL_VAL:
+    if (!label)
+      error_tok(node->tok, "not a compile-time constant");
     *label = &node->unique_label;
     return 0;
   case ND_MEMBER:
